@@ -383,6 +383,11 @@ func (ex *Exec) Run() {
 	}
 	pnames, rnames := calleeNames(sig)
 	entryVals := map[*types.Var]Term{}
+	type cwp struct {
+		t  Term
+		gt types.Type
+	}
+	var cwParams []cwp
 	for i, v := range pvars {
 		s := ex.U.SortOf(v.Type())
 		t := ex.U.DeclareConst("p_"+sanitize(pnames[i]), s)
@@ -391,6 +396,10 @@ func (ex *Exec) Run() {
 		}
 		ex.params[pnames[i]] = t
 		entryVals[v] = t
+		cwParams = append(cwParams, cwp{t, v.Type()})
+	}
+	for _, c := range cwParams {
+		ex.closedWorld(c.t, c.gt)
 	}
 	// entry snapshot before boxing parameters
 	ex.entry = st.clone()
